@@ -710,7 +710,12 @@ class TimeShim:
         if secs is None:
             secs = sim.time() if sim is not None else 1_600_000_000.0
         off = sim.utc_offset if sim is not None else 0
-        return _real_time.gmtime(secs + off)
+        # a faithful local broken-down time: the fields are those of UTC+off and the zone fields say so
+        # (code that "corrects" with tm_gmtoff must see the real offset, not 0)
+        fields = tuple(_real_time.gmtime(secs + off))[:9]
+        sign = "+" if off >= 0 else "-"
+        zone = "UTC" if off == 0 else f"SIM{sign}{abs(off) // 3600:02d}{abs(off) % 3600 // 60:02d}"
+        return _real_time.struct_time(fields + (zone, off))
 
     @staticmethod
     def gmtime(secs=None):
